@@ -31,6 +31,9 @@ from comb_spec_searcher import (
     VerificationStrategy,
 )
 from comb_spec_searcher.exception import InvalidOperationError, StrategyDoesNotApply
+from comb_spec_searcher.strategies.constructor import Constructor
+from comb_spec_searcher.strategies.rule import NonBijectiveRule
+from comb_spec_searcher.strategies.strategy import Strategy
 
 
 class W(str, CombinatorialObject):
@@ -52,7 +55,7 @@ def brute(alphabet, prefix, patterns, just_prefix, n, proper=False):
 
 
 class WC(CombinatorialClass[W]):
-    def __init__(self, prefix, patterns, alphabet, just_prefix=False, stats=(), proper=False, right=None):
+    def __init__(self, prefix, patterns, alphabet, just_prefix=False, stats=(), proper=False, right=None, flags=""):
         # right: None, or a second word class; then this class is the set of *pairs*
         # u|v (u in the class described by the other fields, v in `right`, '|' a separator
         # counted as one letter), i.e. a product of two non-trivial factors
@@ -70,6 +73,10 @@ class WC(CombinatorialClass[W]):
             right = right.with_(stats=self.stats)
             assert right.right is None, "pairs do not nest"
         self.right = right
+        # flags: the words of the class each preceded by one of these letters (not in the
+        # alphabet, counted by no statistic): m copies of every word.  Only the Unflag rule
+        # applies to such a class; its backward map has m pre-images per word.
+        self.flags = "".join(sorted(set(flags or ""))) if (right is None and not self.just_prefix) else ""
 
     # -- required by the engine
     def _bad(self, word):
@@ -89,7 +96,7 @@ class WC(CombinatorialClass[W]):
 
     def _key(self):
         return (self.alphabet, self.prefix, self.patterns, self.just_prefix, self.stats, self.proper,
-                None if self.right is None else self.right._key())
+                None if self.right is None else self.right._key(), self.flags)
 
     def __eq__(self, other):
         if not isinstance(other, WC):
@@ -103,7 +110,8 @@ class WC(CombinatorialClass[W]):
         return (f"{type(self).__name__}({str(self.prefix)!r},{list(map(str, self.patterns))!r},"
                 f"{''.join(self.alphabet)!r},{self.just_prefix},{list(self.stats)!r}"
                 f"{',proper' if self.proper else ''}"
-                f"{'' if self.right is None else ',right=' + repr(self.right)})")
+                f"{'' if self.right is None else ',right=' + repr(self.right)}"
+                f"{',flags=' + repr(self.flags) if self.flags else ''})")
 
     def __str__(self):
         st = " " + ",".join(f"{k}=#{v}" for k, v in self.stats) if self.stats else ""
@@ -112,6 +120,8 @@ class WC(CombinatorialClass[W]):
         if self.just_prefix:
             return f"word '{self.prefix}'{st}"
         plus = "+" if self.proper else ""
+        if self.flags:
+            return f"{{{','.join(self.flags)}}} . [{self.with_(flags='')}]"
         return f"{{{','.join(self.alphabet)}}}* av {{{','.join(self.patterns)}}} pre{plus} '{self.prefix}'{st}"
 
     def descriptor(self):
@@ -120,6 +130,7 @@ class WC(CombinatorialClass[W]):
                 "stats": [list(s) for s in self.stats], "bytes": isinstance(self, WCB),
                 "proper": self.proper,
                 "hash": "coarse" if isinstance(self, _CoarseHash) else None,
+                "flags": self.flags,
                 "right": None if self.right is None else self.right.descriptor()}
 
     @staticmethod
@@ -131,14 +142,14 @@ class WC(CombinatorialClass[W]):
         if right is not None:
             right = WC.from_descriptor(dict(right, bytes=bool(d.get("bytes")), hash=d.get("hash")))
         return cls(d["prefix"], d["patterns"], d["alphabet"], d["just_prefix"],
-                   [tuple(s) for s in d["stats"]], d.get("proper", False), right)
+                   [tuple(s) for s in d["stats"]], d.get("proper", False), right, d.get("flags") or "")
 
     def to_jsonable(self):
         d = super().to_jsonable()
         d.update(prefix=str(self.prefix), patterns=[str(p) for p in self.patterns],
                  alphabet=list(self.alphabet), just_prefix=int(self.just_prefix),
                  stats=[list(s) for s in self.stats], proper=int(self.proper),
-                 right=None if self.right is None else self.right.to_jsonable())
+                 right=None if self.right is None else self.right.to_jsonable(), flags=self.flags)
         return d
 
     @classmethod
@@ -147,7 +158,7 @@ class WC(CombinatorialClass[W]):
         if right is not None:
             right = cls.from_dict(right)
         return cls(d["prefix"], d["patterns"], d["alphabet"], bool(d["just_prefix"]),
-                   [tuple(s) for s in d["stats"]], bool(d.get("proper", 0)), right)
+                   [tuple(s) for s in d["stats"]], bool(d.get("proper", 0)), right, d.get("flags") or "")
 
     # -- counting support
     @property
@@ -184,12 +195,18 @@ class WC(CombinatorialClass[W]):
         return self.just_prefix and self.right is None
 
     def minimum_size_of_object(self):
-        own = len(self.prefix) + (1 if self.proper else 0)
+        own = len(self.prefix) + (1 if self.proper else 0) + (1 if self.flags else 0)
         if self.right is not None:
             return own + 1 + self.right.minimum_size_of_object()
         return own
 
     def _all_objects(self, n):
+        if self.flags:
+            if n >= 1:
+                for w in self.with_(flags="")._all_objects(n - 1):
+                    for f in self.flags:
+                        yield W(f + w)
+            return
         if self.right is None:
             yield from brute(self.alphabet, self.prefix, self.patterns, self.just_prefix, n, self.proper)
             return
@@ -210,7 +227,8 @@ class WC(CombinatorialClass[W]):
 
     def with_(self, **kw):
         d = dict(prefix=self.prefix, patterns=self.patterns, alphabet=self.alphabet,
-                 just_prefix=self.just_prefix, stats=self.stats, proper=self.proper, right=self.right)
+                 just_prefix=self.just_prefix, stats=self.stats, proper=self.proper, right=self.right,
+                 flags=self.flags)
         d.update(kw)
         if d["just_prefix"]:
             d["proper"] = False
@@ -224,14 +242,14 @@ class WCB(WC):
         return json.dumps([str(self.prefix), [str(p) for p in self.patterns],
                            "".join(self.alphabet), self.just_prefix,
                            [list(s) for s in self.stats], self.proper,
-                           None if self.right is None else self.right.to_bytes().decode()]).encode()
+                           None if self.right is None else self.right.to_bytes().decode(), self.flags]).encode()
 
     @classmethod
     def from_bytes(cls, b):
-        p, pats, al, jp, st, pr, right = json.loads(b.decode())
+        p, pats, al, jp, st, pr, right, flags = json.loads(b.decode())
         if right is not None:
             right = cls.from_bytes(right.encode())
-        return cls(p, pats, al, jp, [tuple(s) for s in st], pr, right)
+        return cls(p, pats, al, jp, [tuple(s) for s in st], pr, right, flags)
 
 
 class _CoarseHash:
@@ -255,6 +273,41 @@ def atom_stats(cls, word, drop):
     if not drop:
         return cls.stats
     return tuple((k, letters) for k, letters in cls.stats if any(c in letters for c in word))
+
+
+def dead_stats(c):
+    """Names of the statistics that are 0 on every word of the class, decided exactly: the
+    prefix has none of their letters and no letter of theirs can ever be appended (search
+    over the automaton whose states are the last m-1 letters, m the longest pattern)."""
+    if c.just_prefix or c.right is not None or c.flags or c.is_empty():
+        return ()
+    m = max((len(p) for p in c.patterns), default=1)
+    keep = max(m - 1, 0)
+
+    def ok(state, x):
+        w = state + x
+        return not any(w.endswith(p) for p in c.patterns)
+
+    start = c.prefix[len(c.prefix) - keep:] if keep else ""
+    if len(c.prefix) < keep:
+        start = c.prefix
+    seen, todo, usable = {start}, [start], set()
+    while todo:
+        st = todo.pop()
+        for x in c.alphabet:
+            if ok(st, x):
+                usable.add(x)
+                nxt = (st + x)[-keep:] if keep else ""
+                if nxt not in seen:
+                    seen.add(nxt)
+                    todo.append(nxt)
+    return tuple(k for k, letters in c.stats
+                 if not any(ch in letters for ch in c.prefix) and not any(x in letters for x in usable))
+
+
+def shed_dead(c):
+    dead = dead_stats(c)
+    return c.with_(stats=[(k, l) for k, l in c.stats if k not in dead]) if dead else c
 
 
 class _Opts:
@@ -284,21 +337,26 @@ class Expand(_Opts, DisjointUnionStrategy[WC, W]):
     """C(p) = {p} + sum over letters a of C(p a);   C+(p) = sum over letters a of C(p a).
     With plus=True the first step is split in two:  C(p) = {p} + C+(p)."""
 
-    OPTS = ("drop", "order", "plus")
+    OPTS = ("drop", "order", "plus", "dead")
 
-    def __init__(self, drop=False, order=0, plus=False, **kw):
+    def __init__(self, drop=False, order=0, plus=False, dead=False, **kw):
         self.drop, self.order, self.plus = bool(drop), int(order), bool(plus)
+        # dead: a non-atom child sheds the statistics that are 0 on all of its words, so the
+        # union has children that do not carry some of the parent's parameters
+        self.dead = bool(dead)
         super().__init__(**kw)
 
     def decomposition_function(self, c):
-        if c.just_prefix or c.right is not None:
+        if c.just_prefix or c.right is not None or c.flags:
             return None
         letters = c.alphabet if self.order != 1 else c.alphabet[::-1]
         extensions = [c.with_(prefix=c.prefix + a, proper=False) for a in letters]
+        if self.dead:
+            extensions = [shed_dead(e) for e in extensions]
         if c.proper:
             return tuple(extensions)
         kids = [c.with_(just_prefix=True, stats=atom_stats(c, c.prefix, self.drop))]
-        kids += [c.with_(proper=True)] if self.plus else extensions
+        kids += [shed_dead(c.with_(proper=True)) if self.dead else c.with_(proper=True)] if self.plus else extensions
         if self.order == 2:
             kids = kids[1:] + kids[:1]
         return tuple(kids)
@@ -311,7 +369,7 @@ class Expand(_Opts, DisjointUnionStrategy[WC, W]):
         return tuple({k: k for k in ch.extra_parameters} for ch in children)
 
     def formal_step(self):
-        return f"expand(drop={self.drop},order={self.order},plus={self.plus})"
+        return f"expand(drop={self.drop},order={self.order},plus={self.plus},dead={self.dead})"
 
     def forward_map(self, c, word, children=None):
         if children is None:
@@ -340,7 +398,7 @@ class ExpandTwice(_Opts, DisjointUnionStrategy[WC, W]):
         super().__init__(**kw)
 
     def decomposition_function(self, c):
-        if c.just_prefix or c.right is not None or c.proper:
+        if c.just_prefix or c.right is not None or c.proper or c.flags:
             return None
         x = c.alphabet[self.which % len(c.alphabet)]
         kids = [c.with_(just_prefix=True, stats=atom_stats(c, c.prefix, self.drop))]
@@ -392,10 +450,13 @@ class RemoveFront(_Opts, CartesianProductStrategy[WC, W]):
     """C(u v) = {u} x C(v) when no occurrence can start inside u; with split the atom u is
     cut once more (first letter | rest), with atom_last the factor C(v) comes first."""
 
-    OPTS = ("drop", "atom_last", "split", "swap")
+    OPTS = ("drop", "atom_last", "split", "swap", "merge")
 
-    def __init__(self, drop=False, atom_last=False, split=False, swap=False, **kw):
+    def __init__(self, drop=False, atom_last=False, split=False, swap=False, merge=False, **kw):
         self.drop, self.atom_last, self.split = bool(drop), bool(atom_last), bool(split)
+        # merge: the non-atom factor keeps one statistic per letter set; all parent statistics
+        # with that letter set map onto it (several parent parameters on one child parameter)
+        self.merge = bool(merge) and not bool(swap)
         # swap: the atoms carry the first two statistics under exchanged names, so that the
         # parent -> child parameter maps of a product are not the identity
         self.swap = bool(swap)
@@ -425,7 +486,7 @@ class RemoveFront(_Opts, CartesianProductStrategy[WC, W]):
         return atoms, v
 
     def decomposition_function(self, c):
-        if c.just_prefix or c.right is not None or c.is_empty():
+        if c.just_prefix or c.right is not None or c.flags or c.is_empty():
             return None
         pieces = self._pieces(c)
         if pieces is None:
@@ -433,6 +494,9 @@ class RemoveFront(_Opts, CartesianProductStrategy[WC, W]):
         atoms, v = pieces
         kids = [c.with_(prefix=a, just_prefix=True, stats=self._atom_stats(c, a)) for a in atoms]
         rest = c.with_(prefix=v)
+        if self.merge:
+            plan = MergeStats._plan(c)
+            rest = rest.with_(stats=[(k, l) for k, l in c.stats if plan[k] == k])
         return tuple([rest] + kids) if self.atom_last else tuple(kids + [rest])
 
     def extra_parameters(self, c, children=None):
@@ -440,12 +504,14 @@ class RemoveFront(_Opts, CartesianProductStrategy[WC, W]):
             children = self.decomposition_function(c)
             if children is None:
                 raise StrategyDoesNotApply("Strategy does not apply")
-        return tuple(self._atom_map(c, ch) if ch.just_prefix else {k: k for k in ch.extra_parameters}
+        plan = MergeStats._plan(c) if self.merge else None
+        return tuple(self._atom_map(c, ch) if ch.just_prefix
+                     else (dict(plan) if plan is not None else {k: k for k in ch.extra_parameters})
                      for ch in children)
 
     def formal_step(self):
         return (f"remove front(drop={self.drop},atom_last={self.atom_last},split={self.split},"
-                f"swap={self.swap})")
+                f"swap={self.swap},merge={self.merge})")
 
     def backward_map(self, c, objs, children=None):
         objs = list(objs)
@@ -519,7 +585,7 @@ class LetterSym(_Opts, SymmetryStrategy[WC, W]):
         return str.maketrans("".join(c.alphabet), "".join(c.alphabet[::-1]))
 
     def decomposition_function(self, c):
-        if c.right is not None:
+        if c.right is not None or c.flags:
             return None
         t = self._tr(c)
         return (c.with_(prefix=c.prefix.translate(t), patterns=[p.translate(t) for p in c.patterns],
@@ -550,7 +616,7 @@ class _Inferral(_Opts, DisjointUnionStrategy[WC, W]):
 class MinimisePatterns(_Inferral):
     def decomposition_function(self, c):
         pats = [p for p in c.patterns if not any(q != p and q in p for q in c.patterns)]
-        if len(pats) == len(c.patterns) or c.right is not None:
+        if len(pats) == len(c.patterns) or c.right is not None or c.flags:
             return None
         return (c.with_(patterns=pats),)
 
@@ -570,7 +636,7 @@ class DropDeadStat(_Inferral):
 
     def decomposition_function(self, c):
         dead = self._dead(c)
-        if not dead or c.is_empty() or c.right is not None:
+        if not dead or c.is_empty() or c.right is not None or c.flags:
             return None
         return (c.with_(stats=[(k, l) for k, l in c.stats if k not in dead]),)
 
@@ -595,7 +661,7 @@ class MergeStats(_Inferral):
 
     def decomposition_function(self, c):
         m = self._plan(c)
-        if all(k == v for k, v in m.items()) or c.right is not None:
+        if all(k == v for k, v in m.items()) or c.right is not None or c.flags:
             return None
         return (c.with_(stats=[(k, l) for k, l in c.stats if m[k] == k]),)
 
@@ -620,7 +686,7 @@ class RenameStats(_Inferral):
 
     def decomposition_function(self, c):
         plan = self._plan(c)
-        if plan is None or c.right is not None:
+        if plan is None or c.right is not None or c.flags:
             return None
         return (c.with_(stats=[(plan[k], letters) for k, letters in c.stats]),)
 
@@ -641,6 +707,8 @@ class ExpandFactory(StrategyFactory[WC]):
         self.mode, self.drop, self.plus = int(mode), bool(drop), bool(plus)
 
     def __call__(self, c):
+        if c.flags:
+            return
         strat = Expand(drop=self.drop, plus=self.plus)
         if self.mode == 0:
             yield strat
@@ -680,6 +748,103 @@ class ExpandFactory(StrategyFactory[WC]):
     @classmethod
     def from_dict(cls, d):
         return cls(**d)
+
+
+class Times(Constructor):
+    """parent = m coloured copies of the child, one letter longer: a(n) = m * b(n-1), with the
+    same parameters.  Used by a rule whose backward map has m pre-images."""
+
+    def __init__(self, m):
+        self.m = int(m)
+
+    def can_be_equivalent(self):
+        return False
+
+    def get_equation(self, lhs_func, rhs_funcs):
+        return sympy.Eq(lhs_func, self.m * sympy.var("x") * rhs_funcs[0])
+
+    def reliance_profile(self, n, **parameters):
+        raise NotImplementedError
+
+    def get_terms(self, parent_terms, subterms, n):
+        res = Counter()
+        if n >= 1:
+            for params, v in subterms[0](n - 1).items():
+                if v:
+                    res[params] += self.m * v
+        return res
+
+    def get_sub_objects(self, subobjs, n):
+        if n >= 1:
+            for params, objs in subobjs[0](n - 1).items():
+                if objs:
+                    yield params, (objs,)
+
+    def random_sample_sub_objects(self, parent_count, subsamplers, subrecs, n, **parameters):
+        return (subsamplers[0](n - 1, **parameters),)
+
+    def equiv(self, other, data=None):
+        return (isinstance(other, Times) and other.m == self.m, None)
+
+
+class UnflagRule(NonBijectiveRule):
+    """The library's form for rules whose forward map is not injective: the index of the
+    pre-image (here: of the flag letter) makes bijections through the rule possible."""
+
+    def _forward_order(self, obj, image, data=None):
+        return self.comb_class.flags.index(obj[0])
+
+    def _backward_order_item(self, idx, objs, data=None):
+        return W(self.comb_class.flags[idx] + objs[0])
+
+
+class Unflag(_Opts, Strategy[WC, W]):
+    """{f_1..f_m} . C  ->  C : forget the flag letter.  Not a bijection on objects: every word
+    of C has m pre-images, so the backward map yields several objects, the constructor counts
+    them, and sampling must choose among them."""
+
+    def __init__(self, **kw):
+        super().__init__(ignore_parent=True, inferrable=False, possibly_empty=False, workable=True)
+
+    def decomposition_function(self, c):
+        if not c.flags:
+            return None
+        return (c.with_(flags=""),)
+
+    def __call__(self, comb_class, children=None):
+        if children is None:
+            children = self.decomposition_function(comb_class)
+            if children is None:
+                raise StrategyDoesNotApply("Strategy does not apply")
+        return UnflagRule(self, comb_class, children=children)
+
+    def can_be_equivalent(self):
+        return False
+
+    def is_two_way(self, c):
+        return False
+
+    def is_reversible(self, c):
+        return False
+
+    def shifts(self, c, children=None):
+        return (1,)
+
+    def constructor(self, c, children=None):
+        return Times(len(c.flags))
+
+    def reverse_constructor(self, idx, c, children=None):
+        raise NotImplementedError
+
+    def backward_map(self, c, objs, children=None):
+        for f in c.flags:
+            yield W(f + objs[0])
+
+    def forward_map(self, c, word, children=None):
+        return (W(word[1:]),)
+
+    def formal_step(self):
+        return "forget the flag letter"
 
 
 class StatAtom(VerificationStrategy[WC, W]):
@@ -738,7 +903,8 @@ class PrefixVerified(VerificationStrategy[WC, W]):
         super().__init__(ignore_parent=ignore_parent)
 
     def verified(self, c):
-        return (not c.just_prefix) and c.right is None and (not c.is_empty()) and len(c.prefix) >= self.minlen
+        return ((not c.just_prefix) and c.right is None and not c.flags and (not c.is_empty())
+                and len(c.prefix) >= self.minlen)
 
     def get_terms(self, c, n):
         return Counter(c.get_parameters(w) for w in c.objects_of_size(n))
@@ -798,7 +964,7 @@ class PrefixVerified(VerificationStrategy[WC, W]):
 PACK_DEFAULTS = {
     "drop": False, "order": 0, "atom_last": False, "split": False, "plus": False, "swap": False,
     "sym": False, "inferral": [], "layout": "initial", "factory": None,
-    "ver": "stat", "iterative": False, "nest": 0, "twice": [], "both": False,
+    "ver": "stat", "iterative": False, "nest": 0, "twice": [], "both": False, "merge": False, "dead": False,
 }
 
 
@@ -829,9 +995,10 @@ def make_pack(opts=None):
     """
     o = dict(PACK_DEFAULTS)
     o.update(opts or {})
-    remove = RemoveFront(drop=o["drop"], atom_last=o["atom_last"], split=o["split"], swap=o["swap"])
+    remove = RemoveFront(drop=o["drop"], atom_last=o["atom_last"], split=o["split"], swap=o["swap"],
+                         merge=o.get("merge", False))
     if o["factory"] is None:
-        expand = Expand(drop=o["drop"], order=o["order"], plus=o["plus"])
+        expand = Expand(drop=o["drop"], order=o["order"], plus=o["plus"], dead=o.get("dead", False))
     else:
         expand = ExpandFactory(mode=o["factory"], drop=o["drop"], plus=o["plus"])
     inf_map = {"minimise": MinimisePatterns, "deadstat": DropDeadStat, "merge": MergeStats,
@@ -841,13 +1008,13 @@ def make_pack(opts=None):
     twice = [ExpandTwice(which=w, drop=o["drop"]) for w in o.get("twice") or ()]
     if o.get("both") and o["factory"] is None:
         # the one-step expansion in its other form as well (plain and plus-mode side by side)
-        twice.append(Expand(drop=o["drop"], order=o["order"], plus=not o["plus"]))
+        twice.append(Expand(drop=o["drop"], order=o["order"], plus=not o["plus"], dead=o.get("dead", False)))
     if o["layout"] == "initial":
-        initial, sets = [split_pair, remove], [[expand] + twice]
+        initial, sets = [Unflag(), split_pair, remove], [[expand] + twice]
     elif o["layout"] == "sets":
-        initial, sets = [split_pair], [[remove], [expand] + twice]
+        initial, sets = [Unflag(), split_pair], [[remove], [expand] + twice]
     else:
-        initial, sets = [split_pair], [[remove, expand] + twice]
+        initial, sets = [Unflag(), split_pair], [[remove, expand] + twice]
     if o["ver"] == "stat":
         ver = [StatAtom()]
     elif o["ver"] == "atom":
